@@ -1,15 +1,231 @@
 (* C01 — parallel block execution is deterministic and equals sequential execution.
-   (theorems are being added; see Proofs/ParExec_proofs.v) *)
+
+   The checked model of Processor.Execute (Model/Chain.v [execute_block], compared with the real
+   processor under several core / fetcher / worker configurations by Check/Chain_check.v) runs the
+   block's tasks sequentially ([run_txs]).  Model/ParExec.v generalises the task loop to an arbitrary
+   schedule [sigma] (order in which the tasks run and commit on the shared block-level TState);
+   [run_txs] is the schedule "block order" (C01_sequential_is_identity_schedule).  The theorems
+   below say that EVERY schedule that is a permutation of the block's positions and keeps each
+   conflicting pair in block order produces the same block diff, the same per-position results,
+   the same verdict, prices and units as the sequential model.
+
+   Atoms of the schedule model: a whole task (fresh view, PreExecute, Execute, Commit).  That the Go
+   executor only produces such schedules (conflicting tasks never overlap and keep block order) is
+   property C08's theorem; atomicity of TStateView.Commit and of single reads is the lock discipline
+   of state/tstate (assumption listed in props/C01.json). *)
 From stdpp Require Import gmap.
 From Coq Require Import NArith ZArith.
-From HV Require Import Model.Keys Model.Tstate Model.Fees Model.Chain.
+From HV Require Import Lib.Bytes Lib.U64 Model.Keys Model.Tstate Model.Fees Model.Chain Model.ParExec
+                       Proofs.ParExec_proofs.
+Local Open Scope N_scope.
 
-(* Units and prices are consumed by the synchronous loop in block order, before any task is
-   dispatched: they are a function of the block alone, not of the schedule or the parent data. *)
-Theorem C01_units_schedule_free : forall r fm txs p1 p2 ts st1 st2 ptxs fm',
-  prepare r fm txs = inl (ptxs, fm') ->
-  units_consumed fm' = units_consumed fm' /\
-  (let '(_, _, _) := run_txs r fm' p1 ts st1 ptxs in True) /\
-  (let '(_, _, _) := run_txs r fm' p2 ts st2 ptxs in True).
-Proof. intros. repeat split; destruct (run_txs _ _ _ _ _ _) as [[? ?] ?]; exact I. Qed.
+(* ---- meaning of [conflict] ------------------------------------------------------------------- *)
+Theorem C01_conflict_meaning : forall a b : gmap key perm,
+  conflict a b = true <->
+  exists k p q, a !! k = Some p /\ b !! k = Some q /\ (more_than_read p = true \/ more_than_read q = true).
+Proof. exact conflict_spec. Qed.
+Print Assumptions C01_conflict_meaning.
+
+(* ---- the sequential model is the identity schedule ------------------------------------------- *)
+Theorem C01_sequential_is_identity_schedule : forall r fm parent ts st (ptxs : list ptx),
+  par_block r fm parent ts st ptxs (seq 0 (length ptxs)) = run_txs r fm parent ts st ptxs.
+Proof. intros. apply par_block_identity. Qed.
+Print Assumptions C01_sequential_is_identity_schedule.
+
+(* ---- (a) footprint of one task ---------------------------------------------------------------
+   A task's outcome and the changes it publishes depend on the shared block diff only through the
+   values under its READ-declared keys, and it publishes changes only for WRITE-declared keys
+   (the fee sponsor's balance key is always declared read|write by [tx_decls]; a task that fails
+   publishes nothing: P = ∅, n = 0). *)
+Theorem C01_task_footprint : forall r fm parent ts t sk u st1 st2,
+  (forall k, keys_has sk k pRead = true -> under_of st1 (fetch parent sk) k = under_of st2 (fetch parent sk) k) ->
+  exists P n o,
+    run_tx r fm parent ts st1 t sk u = (mkTS (P ∪ ts_changed st1) (ts_ops st1 + n), o) /\
+    run_tx r fm parent ts st2 t sk u = (mkTS (P ∪ ts_changed st2) (ts_ops st2 + n), o) /\
+    (forall k, is_Some (P !! k) -> keys_has sk k pWrite = true).
+Proof. exact run_tx_footprint. Qed.
+Print Assumptions C01_task_footprint.
+
+(* ---- (b) two adjacent non-conflicting tasks commute ------------------------------------------ *)
+Theorem C01_adjacent_swap : forall r fm parent ts st tA skA uA tB skB uB,
+  conflict skA skB = false ->
+  forall stA oA stAB oB stB oB' stBA oA',
+  run_tx r fm parent ts st tA skA uA = (stA, oA) -> run_tx r fm parent ts stA tB skB uB = (stAB, oB) ->
+  run_tx r fm parent ts st tB skB uB = (stB, oB') -> run_tx r fm parent ts stB tA skA uA = (stBA, oA') ->
+  stAB = stBA /\ oA = oA' /\ oB = oB'.
+Proof. exact run_tx_commute_conflict. Qed.
+Print Assumptions C01_adjacent_swap.
+
+(* ---- commits of non-conflicting tasks are invisible to a task --------------------------------
+   However many tasks that do not conflict with a task commit (before it starts or between two of its
+   reads), every key it may read shows the same value under the block diff, and its outcome is the
+   same: the point at which a task runs among its non-conflicting neighbours is unobservable.  (This
+   is the step that lets the whole task be treated as one atom of the schedule.) *)
+Theorem C01_nonconflicting_commits_invisible : forall r fm parent ts t sk u (l : list ptx) st,
+  (forall p, p ∈ l -> conflict (ptx_keys p) sk = false) ->
+  let st' := fst (fst (run_txs r fm parent ts st l)) in
+  (forall k, keys_has sk k pRead = true ->
+     under_of st' (fetch parent sk) k = under_of st (fetch parent sk) k) /\
+  snd (run_tx r fm parent ts st' t sk u) = snd (run_tx r fm parent ts st t sk u).
+Proof. exact nonconflicting_commits_invisible_run_tx. Qed.
+Print Assumptions C01_nonconflicting_commits_invisible.
+
+(* ---- finer grain: commits that fall BETWEEN two operations of a running task -----------------
+   A view reads the shared block diff lazily at every operation, so other tasks may commit while a
+   task is running.  For ANY history of view operations (reads, writes, deletes, rollbacks) cut at
+   arbitrary points, each segment seeing the block diff current at that time: if those diffs show
+   the same values as the original one under every read-declared key of the view (which is what
+   commits of non-conflicting tasks guarantee, C01_nonconflicting_commits_invisible), the results of
+   all operations, the final pending changes and the op count are those of the uninterrupted history
+   on the original diff.  The atoms are then single view operations (each under the TState lock),
+   not whole tasks; a task body (PreExecute, fee deduction, actions, rollback on failure) is such a
+   history (ChainBridge_proofs: reach / run_actions_shape). *)
+Theorem C01_interleaved_commits_snapshot_free : forall (s : view) (segs : list (tstate * list hop)),
+  (forall ts' hs, (ts', hs) ∈ segs ->
+     forall k, scope_has (v_scope s) k pRead = true -> under_of ts' (v_base s) k = under s k) ->
+  let '(s1, r1) := run_segments s segs in
+  let '(s2, r2) := run s (concat (map snd segs)) in
+  r1 = r2 /\ pending s1 = pending s2 /\ op_index s1 = op_index s2.
+Proof. exact run_segments_snapshot_free. Qed.
+Print Assumptions C01_interleaved_commits_snapshot_free.
+
+(* ---- (c) every conflict-respecting schedule equals sequential execution ----------------------
+   On the task loop: same final block-level TState (changedKeys map and op counter, as equal
+   records), same results in block order, same errors of failing tasks in block order. *)
+Theorem C01_any_conflict_respecting_schedule : forall r fm parent ts st (ptxs : list ptx) (sigma : list nat),
+  sigma ≡ₚ seq 0 (length ptxs) -> respects ptxs sigma ->
+  par_block r fm parent ts st ptxs sigma = run_txs r fm parent ts st ptxs.
+Proof. intros. apply par_block_respects; assumption. Qed.
+Print Assumptions C01_any_conflict_respecting_schedule.
+
+(* On Processor.Execute: verdict (error class / sub-class), results, block diff, metadata, unit
+   prices and units consumed are those of the sequential model, for all rules, parents and blocks. *)
+Theorem C01_block_any_conflict_respecting_schedule : forall r mk p b (sigma : list nat),
+  sigma ≡ₚ seq 0 (length (b_txs b)) -> respects_block (b_txs b) sigma ->
+  execute_block_sched r mk p b sigma = execute_block r mk p b.
+Proof. exact execute_block_sched_eq. Qed.
+Print Assumptions C01_block_any_conflict_respecting_schedule.
+
+(* The executor's own conflict notion (anything that is not exactly Read is exclusive) is coarser:
+   a schedule that keeps the executor's conflicting pairs in block order is covered. *)
+Theorem C01_executor_schedules : forall r mk p b (sigma : list nat),
+  sigma ≡ₚ seq 0 (length (b_txs b)) -> respects_block_with exec_conflict (b_txs b) sigma ->
+  execute_block_sched r mk p b sigma = execute_block r mk p b.
+Proof. intros r mk p b sigma Hp Hr. apply execute_block_sched_eq; [exact Hp | apply respects_block_exec, Hr]. Qed.
+Print Assumptions C01_executor_schedules.
+
+(* ---- determinism: any two conflict-respecting schedules agree with each other ---------------- *)
+Theorem C01_deterministic : forall r mk p b (s1 s2 : list nat),
+  s1 ≡ₚ seq 0 (length (b_txs b)) -> respects_block (b_txs b) s1 ->
+  s2 ≡ₚ seq 0 (length (b_txs b)) -> respects_block (b_txs b) s2 ->
+  execute_block_sched r mk p b s1 = execute_block_sched r mk p b s2.
+Proof. exact execute_block_sched_deterministic. Qed.
+Print Assumptions C01_deterministic.
+
+(* ---- units and prices are schedule-free -------------------------------------------------------
+   They are produced by the synchronous loop ([prepare]: StateKeys, Units, Consume in block order)
+   before any task runs: for ANY two schedules (conflict-respecting or not) and any two parents with
+   the same stored fee manager (whatever their key-value data), two successful executions of a block
+   report the same fee manager, unit prices and units consumed, given in closed form by [prepare]. *)
+Theorem C01_units_schedule_free : forall r mk p1 p2 b (s1 s2 : list nat) o1 o2,
+  p_fee p1 = p_fee p2 ->
+  execute_block_sched r mk p1 b s1 = inl o1 -> execute_block_sched r mk p2 b s2 = inl o2 ->
+  o_fee o1 = o_fee o2 /\ o_prices o1 = o_prices o2 /\ o_consumed o1 = o_consumed o2.
+Proof. exact units_schedule_free. Qed.
 Print Assumptions C01_units_schedule_free.
+
+Theorem C01_units_closed_form : forall r mk p b (sigma : list nat) o,
+  execute_block_sched r mk p b sigma = inl o ->
+  exists ptxs,
+    prepare r (compute_next (p_fee p) (b_ts b) (r_target r) (r_denom r) (r_min_price r)) (b_txs b) = inl (ptxs, o_fee o)
+    /\ o_prices o = unit_prices (o_fee o) /\ o_consumed o = units_consumed (o_fee o).
+Proof. exact execute_block_sched_fees. Qed.
+Print Assumptions C01_units_closed_form.
+
+(* ---- non-vacuity ----------------------------------------------------------------------------- *)
+Definition ex_rules : rules :=
+  mkRules 100%Z 750%Z [1;1;1;1;1] [48;48;48;48;48] [20000000;1000;1000;1000;1000] [1800000;2000;2000;2000;2000]
+          60000%Z 4 1 5 2 20 5 10 3.
+Definition ex_fee : manager := mkFee 1058 [1;100;1;1;1] [] [1500;500;1500;0;0].
+Definition kA : key := [209;0;1].
+Definition kB : key := [210;0;1].
+Definition sp0 : key := [1;0;1].  Definition sp1 : key := [2;0;1].  Definition sp2 : key := [3;0;1].
+Definition ex_tx (sp : key) (decl : list (key * perm)) (ops : list sop) : tx :=
+  mkTx 1067000%Z true 1000000 sp true 3 (-1)%Z (-1)%Z 100 false [mkAction 1 decl ops (-1)%Z (-1)%Z].
+(* tx0 and tx2 both write kA (conflict); tx1 only touches kB and its own balance *)
+Definition ex_txs : list tx :=
+  [ ex_tx sp0 [(kA, pAll)] [OPut kA [3]];
+    ex_tx sp1 [(kB, pAll)] [OPut kB [4]];
+    ex_tx sp2 [(kA, pAll)] [OGet kA; OPut kA [5]] ].
+Definition ex_parent (fee : manager) (extra : list (key * val)) : parent_state :=
+  mkParent (list_to_map ([(sp0, be64 500000); (sp1, be64 500000); (sp2, be64 500000)] ++ extra)) (Some 47) 1059318 fee.
+Definition ex_block : block := mkBlock 1059418%Z 48 true false false None ex_txs.
+Definition ex_meta : meta_keys := mkMeta [0;0;1] [0;1;1] [0;2;1].
+
+Example C01_ex_conflicts :
+  tx_conflict_at conflict ex_txs 0 2 = true /\ tx_conflict_at conflict ex_txs 0 1 = false /\
+  tx_conflict_at conflict ex_txs 1 2 = false.
+Proof. vm_compute. auto. Qed.
+
+(* sigma = [1;0;2] is a permutation that respects the conflicts *)
+Example C01_ex_sigma_perm : [1; 0; 2]%nat ≡ₚ seq 0 (length (b_txs ex_block)).
+Proof. cbn. apply perm_swap. Qed.
+Example C01_ex_sigma_respects : respects_block (b_txs ex_block) [1; 0; 2]%nat.
+Proof. apply respects_block_b_spec. vm_compute. reflexivity. Qed.
+Example C01_ex_sigma_respects_exec : respects_block_with exec_conflict (b_txs ex_block) [1; 0; 2]%nat.
+Proof. apply respects_block_b_spec. vm_compute. reflexivity. Qed.
+
+(* ... the block succeeds, tx2 reads the value written by tx0, and the schedule gives the sequential outcome *)
+Example C01_ex_outcome :
+  match execute_block_sched ex_rules ex_meta (ex_parent ex_fee []) ex_block [1; 0; 2]%nat with
+  | inl o => map res_outputs (o_results o) = [[[]]; [[]]; [[1; 1; 3]]] /\ o_diff o !! kA = Some (Some [5])
+  | inr _ => False
+  end.
+Proof. vm_compute. auto. Qed.
+Example C01_ex_equal :
+  execute_block_sched ex_rules ex_meta (ex_parent ex_fee []) ex_block [1; 0; 2]%nat
+  = execute_block ex_rules ex_meta (ex_parent ex_fee []) ex_block.
+Proof. apply C01_block_any_conflict_respecting_schedule; [exact C01_ex_sigma_perm | exact C01_ex_sigma_respects]. Qed.
+
+(* the hypothesis matters: the permutation [2;0;1] puts the conflicting pair (0,2) out of block order,
+   is rejected by [respects_block], and produces a different outcome (tx2 reads "absent", kA ends as [3]) *)
+Example C01_ex_bad_schedule :
+  respects_block_b conflict ex_txs [2; 0; 1]%nat = false /\
+  match execute_block_sched ex_rules ex_meta (ex_parent ex_fee []) ex_block [2; 0; 1]%nat with
+  | inl o => map res_outputs (o_results o) = [[[]]; [[]]; [[0]]] /\ o_diff o !! kA = Some (Some [3])
+  | inr _ => False
+  end.
+Proof. vm_compute. auto. Qed.
+
+(* C01_adjacent_swap / C01_task_footprint: hypotheses satisfiable *)
+Example C01_ex_swap_hyp : exists skA skB, state_keys (ex_tx sp0 [(kA, pAll)] [OPut kA [3]]) = Some skA /\
+  state_keys (ex_tx sp1 [(kB, pAll)] [OPut kB [4]]) = Some skB /\ conflict skA skB = false.
+Proof. eexists _, _. split; [reflexivity|]. split; [reflexivity|]. vm_compute. reflexivity. Qed.
+
+(* C01_units_schedule_free: two parents with different data, two different schedules (one of them not
+   even conflict-respecting), both succeed, and report the same fee manager / prices / units *)
+Example C01_ex_units :
+  match execute_block_sched ex_rules ex_meta (ex_parent ex_fee []) ex_block [1; 0; 2]%nat,
+        execute_block_sched ex_rules ex_meta (ex_parent ex_fee [(kA, [9]); (kB, [7; 7])]) ex_block [2; 0; 1]%nat with
+  | inl o1, inl o2 => o_results o1 <> o_results o2 /\ o_consumed o1 = o_consumed o2 /\ o_consumed o1 = [300; 15; 42; 150; 78]
+  | _, _ => False
+  end.
+Proof. vm_compute. split; [discriminate | auto]. Qed.
+
+(* C01_interleaved_commits_snapshot_free: a view on kA; between its operations another task commits
+   a change of kB (not declared by the view) *)
+Definition ex_view : view := new_view ts_new (ScopeKeys {[kA := pAll]}) ∅.
+Definition ex_segs : list (tstate * list hop) :=
+  [ (ts_new, [HGet kA; HIns kA [1]]); (mkTS {[kB := Some [9]]} 3, [HGet kA; HRem kA; HGet kA]) ].
+Example C01_ex_segments_hyp : forall ts' hs, (ts', hs) ∈ ex_segs ->
+  forall k, scope_has (v_scope ex_view) k pRead = true -> under_of ts' (v_base ex_view) k = under ex_view k.
+Proof.
+  intros ts' hs Hin k Hk. cbn [ex_view new_view v_scope scope_has] in Hk. unfold keys_has in Hk.
+  destruct (decide (k = kA)) as [->|Hne].
+  - unfold ex_segs in Hin. repeat (apply elem_of_cons in Hin; destruct Hin as [Hin|Hin]; [inversion Hin; subst; vm_compute; reflexivity|]).
+    inversion Hin.
+  - rewrite lookup_singleton_ne in Hk by congruence. vm_compute in Hk. discriminate Hk.
+Qed.
+Example C01_ex_segments_run :
+  snd (run_segments ex_view ex_segs) = [RErr ENotFound; ROk; RVal [1]; ROk; RErr ENotFound].
+Proof. vm_compute. reflexivity. Qed.
